@@ -252,7 +252,11 @@ theorem popReply_idrel {s : Sess} (h : IdInv s) (kind : Kind) (id : ReqId) (k : 
 theorem onEstablished_idrel {s : Sess} (h : IdInv s) (beh : List HAct) (m : InMsg) :
     IdRel s (onEstablished s beh m).2 (onEstablished s beh m).1 := by
   cases m with
-  | goodbye => exact idLiftX.goodbye h _
+  | goodbye =>
+    simp only [onEstablished]
+    split
+    · exact out_idrel h rfl
+    · exact idLiftX.goodbye h _
   | event sub pub p =>
     simp only [onEstablished]
     split
